@@ -242,7 +242,7 @@ I2 == phase = "run" =>
 I3 == phase = "idle" => cfs = PlainTag
 
 \* tables for the binding (emitted once by a generated module: ASSUME PrintT(ToJson(Tables)))
-Tables == [want |-> [c \in AllConfs \cup {Off} |-> Want(c)],
-           tag  |-> [c \in AllConfs \cup {Off} |-> IF c = Off THEN PlainTag
-                                                    ELSE [marked |-> TRUE, key |-> IF MarkerMode = "confkey" THEN AstKey(c) ELSE NoKey]]]
+Tables == [want        |-> [c \in AllConfs \cup {Off} |-> Want(c)],
+           tag_v0230   |-> [c \in AllConfs \cup {Off} |-> IF c = Off THEN PlainTag ELSE [marked |-> TRUE, key |-> NoKey]],
+           tag_confkey |-> [c \in AllConfs \cup {Off} |-> IF c = Off THEN PlainTag ELSE [marked |-> TRUE, key |-> AstKey(c)]]]
 =============================================================================
